@@ -154,7 +154,7 @@ func newEventFromUntrustedJSONV2(eventJSON []byte, roomVersion IRoomVersion) (PD
 		return nil, fmt.Errorf("gomatrixserverlib NewEventFromUntrustedJSON: event is not a JSON object")
 	}
 
-	if err := checkID(res.eventFields.RoomID, "room", '!'); err != nil {
+	if err := notOnlyTooManyBytes(checkID(res.eventFields.RoomID, "room", '!')); err != nil {
 		return nil, err
 	}
 	if err := checkValidRoomID(res.eventFields.RoomID); err != nil {
@@ -287,7 +287,9 @@ func CheckFields(input PDU) error { // nolint: gocyclo
 		}
 	}
 
-	return nil
+	// The parsers refuse a room ID of more than maxIDLength code points; one that exceeds
+	// only the byte limit is reported here, where the event can be handed back with the error.
+	return checkIDLength(input.RoomID().String(), "room")
 }
 
 func newEventFromTrustedJSONV2(eventJSON []byte, redacted bool, roomVersion IRoomVersion) (PDU, error) {
@@ -296,7 +298,7 @@ func newEventFromTrustedJSONV2(eventJSON []byte, redacted bool, roomVersion IRoo
 		return nil, err
 	}
 
-	if err := checkID(res.eventFields.RoomID, "room", '!'); err != nil {
+	if err := notOnlyTooManyBytes(checkID(res.eventFields.RoomID, "room", '!')); err != nil {
 		return nil, err
 	}
 	if err := checkValidRoomID(res.eventFields.RoomID); err != nil {
@@ -315,7 +317,7 @@ func newEventFromTrustedJSONWithEventIDV2(eventID string, eventJSON []byte, reda
 		return nil, err
 	}
 
-	if err := checkID(res.eventFields.RoomID, "room", '!'); err != nil {
+	if err := notOnlyTooManyBytes(checkID(res.eventFields.RoomID, "room", '!')); err != nil {
 		return nil, err
 	}
 	if err := checkValidRoomID(res.eventFields.RoomID); err != nil {
